@@ -13,9 +13,11 @@ Entry(c, v, uv) == [c |-> c, v |-> IF uv THEN v ELSE 0]      \* without values t
 DInsert(front, c, v, uv) == {e \in front : ~Dominates(c, v, e.c, e.v, uv)} \cup {Entry(c, v, uv)}
 DFront(store, d, k) == IF <<d, k>> \in DOMAIN store THEN store[<<d, k>>] ELSE {}
 DSet(store, d, k, f) == [j \in (DOMAIN store) \cup {<<d, k>>} |-> IF j = <<d, k>> THEN f ELSE store[j]]
-\* is_dominated_or_insert: verdict and next store
-DVerdict(store, d, k, c, v, uv) == IsDominated(DFront(store, d, k), c, v, uv)
-DQuery(store, d, k, c, v, uv) == IF DVerdict(store, d, k, c, v, uv) THEN store
+\* is_dominated_or_insert: verdict and next store.  NoDKey: Dominance::get_key returned None -- the state takes no part in the
+\* dominance relation: it is never dominated and never recorded
+NoDKey == -1
+DVerdict(store, d, k, c, v, uv) == k # NoDKey /\ IsDominated(DFront(store, d, k), c, v, uv)
+DQuery(store, d, k, c, v, uv) == IF k = NoDKey \/ DVerdict(store, d, k, c, v, uv) THEN store
                                  ELSE DSet(store, d, k, DInsert(DFront(store, d, k), c, v, uv))
 DClearLayer(store, d) == [j \in {x \in DOMAIN store : x[1] # d} |-> store[j]]
 \* C10: a threshold returned with a dominated verdict is sound and at least the presented value
